@@ -42,10 +42,10 @@ def functions_of_steps():
     return [front.extraction_report('PEPit/primitive_steps/%s.py' % n, n) for n in names]
 
 
-def class_formulas(run, soundness_only=False):
+def class_formulas(run, soundness_only=False, only=None, prefix=None):
     """soundness_only (C03): keep 'generated formula == documented formula', drop the completeness obligations (C04)"""
     from .classes import SPECS
-    names = list(SPECS)
+    names = [n for n in SPECS if only is None or n in only]
     ctx = mp.get_context('fork')
     with ctx.Pool(min(JOBS, len(names))) as pool:
         res = pool.map(_c04_task, names, chunksize=1)
@@ -57,6 +57,8 @@ def class_formulas(run, soundness_only=False):
                 continue
             if soundness_only:
                 oid = oid.replace('C04/', 'C03/', 1)
+            if prefix:
+                oid = oid.replace('C04/', prefix + '/', 1)
             if verdict == 'error':
                 run.obligations += 1
                 run.undecide(oid, 'contract-level execution failed: ' + detail[:400])
